@@ -6,7 +6,14 @@ package net
 import (
 	"context"
 
+	"github.com/fxamacker/cbor/v2"
 	"github.com/ipfs/boxo/blockservice"
+	"github.com/libp2p/go-libp2p/core/peer"
+	"github.com/libp2p/go-libp2p/p2p/net/swarm"
+	"github.com/sourcenetwork/corekv"
+
+	"github.com/sourcenetwork/defradb/internal/datastore"
+	"github.com/sourcenetwork/defradb/internal/keys"
 
 	coreblock "github.com/sourcenetwork/defradb/internal/core/block"
 )
@@ -16,4 +23,74 @@ import (
 // raises the merge event only if this returns nil.
 func VerifSyncDAG(ctx context.Context, bs blockservice.BlockService, block *coreblock.Block) error {
 	return syncDAG(ctx, bs, block)
+}
+
+// VerifRetryReplicators runs one round of the replicator retry loop as if every retry were due (what
+// handleReplicatorRetries does on a tick once the retry interval has elapsed), synchronously: every retry record that
+// is not marked as retrying is marked and its retry task is run to completion.
+func (p *Peer) VerifRetryReplicators(ctx context.Context) error {
+	ps := datastore.PeerstoreFrom(p.db.Rootstore())
+	iter, err := ps.Iterator(ctx, corekv.IterOptions{Prefix: []byte(keys.REPLICATOR_RETRY_ID)})
+	if err != nil {
+		return err
+	}
+	type due struct {
+		key  keys.ReplicatorRetryIDKey
+		info retryInfo
+	}
+	var dues []due
+	for {
+		ok, err := iter.Next()
+		if err != nil || !ok {
+			break
+		}
+		key, err := keys.NewReplicatorRetryIDKeyFromString(string(iter.Key()))
+		if err != nil {
+			continue
+		}
+		v, err := iter.Value()
+		if err != nil {
+			continue
+		}
+		var ri retryInfo
+		if cbor.Unmarshal(v, &ri) != nil || ri.Retrying {
+			continue
+		}
+		dues = append(dues, due{key, ri})
+	}
+	if err := iter.Close(); err != nil {
+		return err
+	}
+	for _, d := range dues {
+		exists, err := ps.Has(ctx, keys.NewReplicatorKey(d.key.PeerID).Bytes())
+		if err != nil {
+			return err
+		}
+		if !exists {
+			if err := p.deleteReplicatorRetryAndDocs(ctx, d.key.PeerID); err != nil {
+				return err
+			}
+			continue
+		}
+		if err := p.setReplicatorAsRetrying(ctx, d.key, d.info); err != nil {
+			return err
+		}
+		p.retryReplicator(ctx, d.key.PeerID)
+	}
+	return nil
+}
+
+// VerifClearDialBackoff forgets the dial back-offs for a peer (the passage of the back-off time): the connection
+// manager's and the one of the cached gRPC connection.
+func (p *Peer) VerifClearDialBackoff(id peer.ID) {
+	if sw, ok := p.host.Network().(*swarm.Swarm); ok {
+		sw.Backoff().Clear(id)
+	}
+	// and the connect back-off of the cached gRPC connection to that peer
+	p.server.connMu.Lock()
+	if conn, ok := p.server.conns[id]; ok {
+		conn.ResetConnectBackoff()
+		conn.Connect()
+	}
+	p.server.connMu.Unlock()
 }
